@@ -46,6 +46,10 @@ pub fn arange(start: f64, stop: f64, step: f64) -> Vector {
 /// Generates evenly spaced values within a given interval, with a set number of points. Both the
 /// start and stop points are included.
 pub fn linspace(start: f64, stop: f64, num: usize) -> Vector {
+    if num == 1 {
+        // a single point: the start (the width below would be 0/0)
+        return Vector::from(vec![start]);
+    }
     let width = (stop - start) / (num - 1) as f64;
     (0..num)
         .map(|i| start + i as f64 * width)
